@@ -1167,7 +1167,15 @@ impl Kanata {
         }
 
         if cur_keys.is_empty() && !self.prev_keys.is_empty() {
-            if let Some(state) = self.sequence_state.get_active() {
+            // Releasing all keys ends an overlapping group; if the most recent key is not part
+            // of one there is nothing to end and the tracked state must be left alone.
+            let overlap_in_progress = self
+                .sequence_state
+                .overlapped_sequence
+                .last()
+                .map(|k| *k != KEY_OVERLAP_MARKER && *k & KEY_OVERLAP_MARKER != 0)
+                .unwrap_or(false);
+            if let (Some(state), true) = (self.sequence_state.get_active(), overlap_in_progress) {
                 use kanata_parser::trie::GetOrDescendentExistsResult::*;
                 state.overlapped_sequence.push(KEY_OVERLAP_MARKER);
                 match self
